@@ -172,6 +172,13 @@ Theorem C11_next_operation_free_is_the_code's : forall jb, gen_is_job_next_opera
 Proof. exact gen_is_job_next_operation_free_eq. Qed.
 Print Assumptions C11_next_operation_free_is_the_code's.
 
+(* the three finders of a job's next operation record (first not DONE - raising InvalidValue when there is none -, first IDLE, first PROCESSING),
+   regenerated from job_type_utils *)
+Theorem C11_next_operation_finders_are_the_code's : forall jb,
+  gen_first_not_done jb = first_not_done jb /\ gen_first_idle jb = first_idle jb /\ gen_first_proc jb = first_proc jb.
+Proof. exact gen_first_ops_eq. Qed.
+Print Assumptions C11_next_operation_finders_are_the_code's.
+
 (* what IS true of every dispatch of every run of every instance: every IDLE -> WORKING of an AGV in the micro-log of any decision names an
    unclaimed job, takes exactly travel(where the AGV stands -> where the job lies) to get there, records the route to the machine of the
    job's next idle operation (or the output buffer) and claims the job - the whole clause ev_dispatch - unless its readiness conjunct
